@@ -20,7 +20,16 @@ pub fn generate(seed: u64, tier: &str, out: &mut dyn std::io::Write) {
         let scen = *r.pick(&["ok", "destfail", "destfail", "destpanic", "badapp", "nostop", "ok-signals", "ok-signals", "destfail-signals", "stoptimeout", "stoptimeout-signals"]);
         let nblock = r.range(0, 5) as usize;
         let nspin = r.range(0, 2) as usize;
-        let args = vec!["-t".to_string(), nblock.to_string(), "-s".to_string(), nspin.to_string(), "-g".to_string()];
+        let mut args = vec!["-t".to_string(), nblock.to_string(), "-s".to_string(), nspin.to_string(), "-g".to_string()];
+        // a sandbox-helper-like thread (null stack pointer): attached, then skipped — it must be let go as well.
+        // (No signals for it: a handler cannot run without a stack.)
+        let mut helper_idx: Option<usize> = None;
+        if nblock >= 1 && r.chance(1, 3) {
+            let k = r.range(1, nblock as u64) as usize;
+            args.push("-w".into());
+            args.push(format!("{}:0", k));
+            helper_idx = Some(k);
+        }
         let t = match Target::spawn(&args) {
             Ok(t) => t,
             Err(_) => continue,
@@ -45,7 +54,7 @@ pub fn generate(seed: u64, tier: &str, out: &mut dyn std::io::Write) {
         if with_signals {
             let sent = sent.clone();
             let pid = t.pid;
-            let tids: Vec<i32> = t.threads.iter().filter(|x| !x.spin).map(|x| x.tid).collect();
+            let tids: Vec<i32> = t.threads.iter().filter(|x| !x.spin && Some(x.idx) != helper_idx).map(|x| x.tid).collect();
             let plan: Vec<(String, i32, u32)> = (0..r.range(1, 6))
                 .map(|_| {
                     let point = (*r.pick(&["dump_start", "threads_enumerated", "before_attach", "threads_suspended", "before_resume", "after_resume"])).to_string();
@@ -82,6 +91,22 @@ pub fn generate(seed: u64, tier: &str, out: &mut dyn std::io::Write) {
         }
         // let the target settle, then observe it
         std::thread::sleep(std::time::Duration::from_millis(30));
+        // a queued signal is delivered when its thread next runs: wait (bounded) until the counters stop short of
+        // nothing, so that a slow machine is not mistaken for a lost signal
+        {
+            let deadline = std::time::Instant::now() + std::time::Duration::from_secs(3);
+            loop {
+                let s = sent.lock().unwrap().clone();
+                let all = t.threads.iter().all(|x| {
+                    let want = s.iter().find(|e| e.0 == x.tid).map(|e| e.1 as u64).unwrap_or(0);
+                    t.read_u64(x.sig_addr) >= want
+                });
+                if all || std::time::Instant::now() > deadline {
+                    break;
+                }
+                std::thread::sleep(std::time::Duration::from_millis(5));
+            }
+        }
         let states: Vec<String> = t.task_states().iter().map(|(tid, s, tr)| format!("{}:{}:{}", tid, s, tr)).collect();
         let delivered: Vec<String> = t.threads.iter().map(|x| format!("{}:{}", x.tid, t.read_u64(x.sig_addr))).collect();
         let sent_s: Vec<String> = sent.lock().unwrap().iter().map(|(a, b)| format!("{}:{}", a, b)).collect();
@@ -91,8 +116,8 @@ pub fn generate(seed: u64, tier: &str, out: &mut dyn std::io::Write) {
         }).collect();
         writeln!(
             out,
-            "{} scen={} call={} after_states={} sent={} delivered={} spin={}",
-            o.line, scen, call, states.join(","), sent_s.join(","), delivered.join(","),
+            "{} scen={}{} call={} after_states={} sent={} delivered={} spin={}",
+            o.line, scen, if helper_idx.is_some() { " helper=1" } else { "" }, call, states.join(","), sent_s.join(","), delivered.join(","),
             if spin_after.is_empty() { "-".to_string() } else { spin_after.join(",") }
         )
         .unwrap();
